@@ -39,6 +39,8 @@ def check_merkle(ctx, oid="C15.1"):
     fi = ctx.fn("bits.blockchain.merkle_root")
     ev = ctx.evaluator()
     lens = list(range(1, 41)) + [63, 64, 65, 66, 127, 128, 129, 130]
+    if ctx.thorough:
+        lens = list(range(1, 140)) + [255, 256, 257, 258]
     bad = []
     for n in lens:
         leaves = [P("t%d" % i, tm.BYTES) for i in range(n)]
